@@ -70,6 +70,9 @@ Definition chk_query (loops : list (Loop K)) (P : option (Poly K)) (q : query) :
   | 8%N, _ => fin_l (loop_remove L i)
   | 9%N, _ => fin_f (do v <- loop_index L i; Ok [vx v; vy v; vz v])
   | 10%N, Some P => fin_l (poly_inner P i)
+  | 11%N, _ => fin_f (do Q <- poly_new L;
+                      Ok [parea Q; vx (pnormal Q); vy (pnormal Q); vz (pnormal Q);
+                          nofZ (Z.of_nat (length (pinner Q))); nofZ (Z.of_nat (llen (pouter Q)))])
   | _, _ => 0%N
   end.
 Fixpoint chk_queries (loops : list (Loop K)) (P : option (Poly K)) (qs : list query) (bits : N) : N :=
